@@ -259,6 +259,8 @@ def judge(o):
     else:
         o.corr_ok = (o.impl == o.model)
         o.prop_ok = (o.spec == '-' or o.impl == o.spec)
+        if o.case.stream == 'rpn':
+            o.in_domain = False     # arbitrary token lists: the property speaks about well-formed expressions only
 
 
 def shrink(ctx, o, evaluate):
